@@ -422,6 +422,8 @@ def shard(args):
                 check_binary_search(ns, res, n)
         if args['shard'] in (1, 2) and not res.vkeys.get('pickle-roundtrip'):
             check_concurrent_allocation(ns, res, r)
+        if not res.vkeys.get('pickle-roundtrip'):
+            check_worker_transfer(ns, res, r)
         if args['shard'] == 0 and not res.vkeys.get('pickle-roundtrip') \
                 and not res.vkeys.get('pool-transfer-failed'):
             check_deep(ns, res, pool)
@@ -513,6 +515,87 @@ def check_concurrent_allocation(ns, res, r):
                 f'{"equal" if ta == tb else "different"}',
                 {'a': ta, 'b': tb})
             break
+
+
+def check_worker_transfer(ns, res, r):
+    """The receiving end of ddmin's own transfer protocol: the real
+    strategy_ddmin._worker is handed a *history* of pickled inputs (each
+    derived from its predecessor by a size-preserving leaf swap, a size
+    changing edit, or a return to an earlier input) and must work on the
+    tree it was sent - equal, with the identities and hashes sent - and not
+    on anything it kept from an earlier task.  Only the command is replaced
+    (checker.check_exprs records its argument and accepts)."""
+    import importlib
+    import pickle
+    ddmin = importlib.import_module('ddsmt.strategy_ddmin')
+    checker = importlib.import_module('ddsmt.checker')
+    Simp = ns.mutator_utils.Simplification
+    seen = []
+    orig = checker.check_exprs
+    checker.check_exprs = lambda exprs: (seen.append(exprs), True)[1]
+    try:
+        for _ in range(12):
+            n = r.randint(2, 6)
+            cur = [['assert', [r.choice(['<', '>']), r.choice('abxy'),
+                               str(r.randint(2, 9))]] for _ in range(n)]
+            cur.append(['check-sat'])
+            history = []
+            for step in range(r.randint(3, 8)):
+                kind = r.choice(['same', 'same', 'same', 'size', 'back'])
+                nxt = copy.deepcopy(cur)
+                if kind == 'same':
+                    a = nxt[r.randrange(n)][1]
+                    k = r.choice([1, 2])
+                    a[k] = r.choice([c for c in ('abxy' if k == 1 else
+                                                 '23456789') if c != a[k]])
+                elif kind == 'size':
+                    nxt[r.randrange(n)][1][2] = str(r.randint(10, 999))
+                elif history:
+                    nxt = copy.deepcopy(r.choice(history))
+                history.append(cur)
+                cur = nxt
+                exprs = [refmodel.build(ns.Node, t) for t in cur]
+                marker = ns.Node('marker')
+                simp = Simp({exprs[-1].id: marker}, [])
+                task = ddmin.Task(step, pickle.dumps(exprs),
+                                  pickle.dumps([simp]))
+                del seen[:]
+                result = ddmin._worker(task)
+                res.count('evaluations')
+                res.count('worker_transfers')
+                res.add_set('worker_transfer_kinds', kind)
+                want = cur[:-1] + ['marker']
+                if not result.success or not seen:
+                    res.violation(
+                        'worker-transfer:no-result',
+                        f'_worker returned no candidate for {cur!r}',
+                        {'history': history + [cur]})
+                    return
+                got = refmodel.to_nested_list(seen[-1])
+                if got != want:
+                    res.violation(
+                        'worker-transfer:other-tree',
+                        f'_worker was sent {cur!r} (step {step}, {kind}) but '
+                        f'worked on {got!r}',
+                        {'history': history + [cur], 'got': got})
+                    return
+                sent = [x for e in exprs[:-1] for x in ids_of(e)]
+                used = [x for e in seen[-1][:-1] for x in ids_of(e)]
+                if sent != used:
+                    res.violation(
+                        'worker-transfer:other-identities',
+                        'the tree the worker used has other node identities '
+                        'than the tree sent', {'history': history + [cur]})
+                    return
+                if [hash(e) for e in exprs[:-1]] != \
+                        [hash(e) for e in seen[-1][:-1]]:
+                    res.violation(
+                        'worker-transfer:other-hash',
+                        'hashes differ between the tree sent and the tree '
+                        'the worker used', {'history': history + [cur]})
+                    return
+    finally:
+        checker.check_exprs = orig
 
 
 def check_deep(ns, res, pool):
